@@ -201,3 +201,5 @@ Definition show_model (c : vm_case) :=
   | Panic _ => (2, 0, 0, [], [], 0)
   | OutOfFuel => (3, 0, 0, [], [], 0)
   end.
+
+Definition show_models (cases : list (N * vm_case)) := map (fun c => (fst c, show_model (snd c))) cases.
